@@ -62,7 +62,7 @@ class Contract:
                  pure=False, self_type=None, ghost_params=None, escapes=(), notes="", allow_any_exception=False, varargs=False, uses=(), allocates=False, defaults=None, kwargs_param=None, prefer_ext=(), noreturn=False, returns_self=False):
         self.returns_self = returns_self   # the method returns its receiver (keeps the static/dynamic type of the argument)
         self.noreturn = noreturn
-        self.prefer_ext = set(prefer_ext)   # 'Cls.method' names for which the ext:: call-site view is used instead of the real contract
+        self.prefer_ext = dict(prefer_ext) if isinstance(prefer_ext, dict) else {k: k for k in prefer_ext}   # 'Cls.method' names for which the ext:: call-site view is used instead of the real contract
         self.kwargs_param = kwargs_param
         self.defaults = dict(defaults or {})   # parameter -> spec expression used when the call omits it
         self.allocates = allocates or any('fresh(' in (e.expr if isinstance(e, Clause) else e) for e in (ensures or []))
